@@ -64,7 +64,7 @@ proof fn lemma_nth(a: int, b: int, idx: int)
     }
 }
 
-//@slice src/css.rs :: impl Selector :: fn do_matches :: /let idx_offset =/ .. /(?m)^                \}\n            \},\n        \}/
+//@slice src/css.rs :: impl Selector :: fn do_matches :: /\/\* The selector matches if idx == a\*n \+ b/ .. /(?m)^                \}\n            \},\n        \}/
 //@name nth_slice
 //@auto C01 C20
 //@sub * /Self::do_matches\(&comps\[1\.\.\], node\)/ ==> rest_matches
@@ -76,6 +76,11 @@ fn nth_slice(idx: i32, a: &i32, b: &i32, rest_matches: bool) -> (r: bool) //@w
 { //@w
     proof { lemma_nth(*a as int, *b as int, idx as int); } //@w
     let ghost a0 = *a as int; //@w
+                    /* The selector matches if idx == a*n + b, where
+                     * n >= 0
+                     */
+                    // Use wider arithmetic: a and b can be anywhere in the i32
+                    // range, so idx - b doesn't always fit.
                     let idx_offset = idx as i64 - *b as i64;
                     let a = *a as i64;
                     assert(a == a0 && idx_offset == idx - *b); //@w
